@@ -79,15 +79,17 @@ Definition thr_of (wait safe : bool) (p : pmsg) : Z := u64 (p_height p + expecte
 (* pLock.height+expectedConfirmations+w.maxWaitConfirmations *)
 Definition lim_of (wait safe : bool) (p : pmsg) : Z := u64 (thr_of wait safe p + evm_max_wait).
 
-(* result: (entry stays in w.pending, events) *)
-Definition scan_entry (wait safe : bool) (n : Z) (a : rans) (k : key) (p : pmsg) : bool * list out :=
+(* result: (entry stays in w.pending, events).  tb / tr say where the source has the abandonment test and the
+   transient-error test: tb = the abandonment test precedes the depth test (tree before repo commit 40922fc),
+   tr = transient errors are classified before the orphan test and the abandonment test sits on that branch *)
+Definition scan_entry_gen (tb tr : bool) (wait safe : bool) (n : Z) (a : rans) (k : key) (p : pmsg) : bool * list out :=
   let bn := u64 n in                                   (* blockNumberU := ev.Number.Uint64() *)
   let thr := thr_of wait safe p in
   let lim := lim_of wait safe p in
-  if evm_timeout_before_depth && evm_window_passed lim bn then (false, [Dropped k WTimeout])
+  if tb && evm_window_passed lim bn then (false, [Dropped k WTimeout])
   else if evm_depth_reached thr bn then
     (* tx, err := w.ethConn.TransactionReceipt(..) *)
-    if evm_transient_before_orphan && is_transient (a_err a) then
+    if tr && is_transient (a_err a) then
       if evm_window_passed lim bn then (false, [Looked k; Dropped k WTimeout])
       else (true, [Looked k])
     else if is_orphan a then (false, [Looked k; Dropped k WOrphan])
@@ -95,11 +97,15 @@ Definition scan_entry (wait safe : bool) (n : Z) (a : rans) (k : key) (p : pmsg)
          | None => (false, [Looked k; Dropped k WOrphan])          (* unreachable: is_orphan *)
          | Some (st, bh) =>
            if negb (evm_status_ok st) then (false, [Looked k; Dropped k WFailed])
-           else if negb evm_transient_before_orphan && err_nonnil (a_err a) then (true, [Looked k])
+           else if negb tr && err_nonnil (a_err a) then (true, [Looked k])
            else if negb (bh =? k_bh k) then (false, [Looked k; Dropped k WRemined])
            else (false, [Looked k; Confirmed k (p_msg p)])
          end
   else (true, []).
+
+(* the order of the tests as the extractor found it in the source *)
+Definition scan_entry : bool -> bool -> Z -> rans -> key -> pmsg -> bool * list out :=
+  scan_entry_gen evm_timeout_before_depth evm_transient_before_orphan.
 
 (* w.pending as an association list with distinct keys; Go's map order is not observable: the check compares the events
    of one step as multisets, and the outcome for one entry does not depend on the others *)
